@@ -67,6 +67,13 @@ DamageEvent ==
         /\ (E.res.kind = "ok" => Decode(s).kind \notin {"mismatch", "badsum"})
     /\ UNCHANGED <<cur, curf>>
 
+\* arbitrary hex text with an inconsistent length field or checksum (not only single-character damage): never accepted
+AcceptEvent ==
+    /\ IsEvent("accept")
+    /\ E.res.kind # "panic"
+    /\ (E.res.kind = "ok" => Decode(E.s).kind \notin {"mismatch", "badsum"})
+    /\ UNCHANGED <<cur, curf>>
+
 \* ---- C03 -----------------------------------------------------------------
 DecodeEvent ==
     /\ IsEvent("decode")
@@ -100,6 +107,6 @@ M2WEvent ==
     /\ E.back = E.msg /\ E.backeq = TRUE
     /\ UNCHANGED <<cur, curf>>
 
-Next == FrameEvent \/ TryNewEvent \/ ValidEvent \/ DamageEvent \/ DecodeEvent \/ F2MEvent \/ M2WEvent
+Next == FrameEvent \/ TryNewEvent \/ ValidEvent \/ DamageEvent \/ AcceptEvent \/ DecodeEvent \/ F2MEvent \/ M2WEvent
 Spec == Init /\ [][Next]_vars
 =============================================================================
